@@ -10,6 +10,7 @@ pub mod par;
 pub mod ieee;
 pub mod exact;
 pub mod lit;
+pub mod litfam;
 pub mod hp;
 
 pub use lay::{mask, Lay, Layout};
